@@ -224,6 +224,7 @@ def native_run(target, inputs, choices):
         with target.patched(externs):
             out = target.run_native(ctx, st)
             clauses = list(target.ensures(ctx, st, out))     # evaluated under the same patched externs
+            clauses += list(target.frame(ctx, st, out))
         clauses += _class_constant_frame(ctx)
         return ctx, st, out, clauses
     finally:
@@ -339,6 +340,8 @@ def explore_chunk(target, work, limit, carve_names, tier, cross_check=True):
             out = None
         if out is not None:
             for label, goal in target.ensures(ctx, st, out):
+                ctx.oblige(label, goal)
+            for label, goal in target.frame(ctx, st, out):
                 ctx.oblige(label, goal)
             for label, goal in _class_constant_frame(ctx):
                 ctx.oblige(label, goal)
